@@ -50,3 +50,34 @@ func init() {
 		fmt.Println("UNKNOWN EXTERNALS:\n " + strings.Join(us, "\n "))
 	}
 }
+
+func init() {
+	debugCmds["pdebug"] = func(args []string) {
+		p, err := loadProg("/repo", "")
+		if err != nil {
+			fmt.Println(err)
+			os.Exit(2)
+		}
+		c, _ := newCtx(p, "DBG", "quick")
+		pe := configureInterpP(c)
+		for _, f := range pe.O.fns {
+			if len(args) == 0 || !strings.Contains(funcName(f), args[0]) {
+				continue
+			}
+			fmt.Println("==", funcName(f))
+			pc := pe.postOf(f)
+			fmt.Printf("  post valid=%v errIdx=%d ok=%d false=%d resNonNil=%v\n", pc.valid, pc.errIdx, len(pc.okConds), len(pc.falseConds), pc.resNonNil)
+			pf := pe.pf(f)
+			for _, cd := range pc.okConds {
+				fmt.Printf("    okcond %v: %s\n", cd.truth, pf.get(cd.v).key)
+			}
+			for _, cl := range pe.clausesOf(f) {
+				var ls []string
+				for _, l := range cl {
+					ls = append(ls, fmt.Sprintf("%v:%s", l.truth, pf.get(l.v).key))
+				}
+				fmt.Println("  clause:", strings.Join(ls, "  OR  "))
+			}
+		}
+	}
+}
